@@ -72,7 +72,14 @@ const findingCircleBox = "circle-object-box-misses-disc"
 // (deleted ids keep being returned) and searches miss objects.
 const findingNaN = "circle-nan-box-corrupts-index"
 
-var allFindings = []string{findingNaN, findingEmpty, findingCircleObj, findingCircleBox, findingCircle}
+// findingNested: searchRect (collection.go) widens the box only for a top-level
+// *geojson.Circle. A FeatureCollection whose features are circles is indexed,
+// and as a query area searched, by the union of the children's 64-gon boxes,
+// while collection-vs-point tests descend to Circle.Contains/Intersects(Point)
+// = haversine disc: the E/W sliver (and pole/antimeridian discs) again.
+const findingNested = "nested-circle-box-misses-disc"
+
+var allFindings = []string{findingNaN, findingEmpty, findingCircleObj, findingCircleBox, findingNested, findingCircle}
 
 func nanBox(o geojson.Object) bool {
 	if o == nil || o.Empty() {
@@ -85,6 +92,47 @@ func nanBox(o geojson.Object) bool {
 func isCircleObj(o geojson.Object) bool {
 	_, ok := o.(*geojson.Circle)
 	return ok
+}
+
+// nestedCircle reports a circle below the top level of o.
+func nestedCircle(o geojson.Object) bool {
+	if o == nil || isCircleObj(o) {
+		return false
+	}
+	var walk func(g geojson.Object) bool
+	walk = func(g geojson.Object) bool {
+		switch g := g.(type) {
+		case *geojson.Circle:
+			return true
+		case *geojson.Feature:
+			return walk(g.Base())
+		case geojson.Collection:
+			for _, ch := range g.Children() {
+				if walk(ch) {
+					return true
+				}
+			}
+		}
+		return false
+	}
+	return walk(o)
+}
+
+// hasNaNCircle reports a circle with NaN vertices anywhere inside o.
+func hasNaNCircle(o geojson.Object) bool {
+	switch g := o.(type) {
+	case *geojson.Circle:
+		return nanBox(g)
+	case *geojson.Feature:
+		return hasNaNCircle(g.Base())
+	case geojson.Collection:
+		for _, ch := range g.Children() {
+			if hasNaNCircle(ch) {
+				return true
+			}
+		}
+	}
+	return false
 }
 
 var srv *t38.Srv
@@ -553,7 +601,7 @@ func (m *machine) apply(st step) {
 		if inexact(obj) {
 			m.inex++
 		}
-		if nanBox(obj) {
+		if nanBox(obj) || hasNaNCircle(obj) {
 			m.nan = true
 		}
 		m.mix("set", st.ID, strings.Join(st.Obj.Args, " "))
@@ -663,7 +711,7 @@ func (m *machine) query(st step) {
 		}
 	}
 
-	if base != nil && isCircleObj(base) && nanBox(base) {
+	if base != nil && hasNaNCircle(base) {
 		// the same garbage on the query side: CIRCLE lat lon r with lat + r/R = 90 degrees within rounding
 		c.Label("excluded:nan-circle-area")
 		return
@@ -679,7 +727,7 @@ func (m *machine) query(st step) {
 
 	// shapes of the findings of this property; when a finding is listed as
 	// known its shape is taken out of the comparison (and counted)
-	shapes := map[string]map[string]bool{findingCircle: {}, findingEmpty: {}, findingCircleObj: {}, findingCircleBox: {}, findingNaN: {}}
+	shapes := map[string]map[string]bool{findingCircle: {}, findingEmpty: {}, findingCircleObj: {}, findingCircleBox: {}, findingNaN: {}, findingNested: {}}
 	_, isCirc := base.(*geojson.Circle)
 	var areaRect geometry.Rect
 	if clipped != nil {
@@ -689,6 +737,10 @@ func (m *machine) query(st step) {
 		o := m.live[id]
 		switch {
 		case o == nil:
+		case clipped != nil && !o.Empty() && !o.Rect().IntersectsRect(areaRect) && (nestedCircle(o) || nestedCircle(base)):
+			// a circle nested in a collection (stored or as the query OBJECT) is
+			// represented by the box of its 64-gon
+			shapes[findingNested][id] = true
 		case isCircleObj(o):
 			if clipped != nil && o.Rect().IntersectsRect(areaRect) {
 				// its box meets the area's box: it must be a candidate if it is indexed at all
@@ -733,7 +785,7 @@ func (m *machine) query(st step) {
 	// comparison. What must still hold - and is checked by everything else in
 	// the history - is that their presence does not disturb other objects.
 	for id, o := range m.live {
-		if isCircleObj(o) && nanBox(o) {
+		if hasNaNCircle(o) {
 			ignore[id] = true
 			delete(want, id)
 		}
